@@ -408,7 +408,7 @@ CONNECT) then a generated API call mix. Oracle: no panic, termination decided by
     fn assumptions() -> Vec<String> {
         vec![
             "heap is measured on the harness's counting allocator, per thread; OpenSSL's own allocations are not seen".into(),
-            "non-termination is detected without a clock: the scripted transport flags > 64 reads at EOF and pulls beyond the per-construct bound".into(),
+            "non-termination is detected without a clock: the scripted transport flags more than 600 reads at EOF beyond the caller-level calls (serde_json re-polls a failed reader up to twice per nesting level) and pulls beyond the per-construct bound".into(),
             "an endless stream of header lines with invalid names is not asserted (dropped without counting; memory stays bounded)".into(),
         ]
     }
@@ -637,7 +637,7 @@ CONNECT) then a generated API call mix. Oracle: no panic, termination decided by
             );
         }
         let _ = run.spinning;
-        if run.eof_reads > run.calls + 64 {
+        if run.eof_reads > run.calls + 600 {
             return Outcome::fail(format!("C05:{sig_class}:spinning"), format!("the client kept reading at end of stream: {} transport reads at EOF for {} caller-level calls", run.eof_reads, run.calls));
         }
         let factor = if json { 64 } else { 16 };
